@@ -101,8 +101,8 @@ func Names(quick bool) Family {
 
 // Stack: every placement of Push / Pop / Return in Root and two sub-states.
 func Stack(quick bool) Family {
-	rootMenu := []m.Rule{r("A", `a`), push("Open", `\(`, "S1"), pop("Close", `\)`), ret(), r("Any", `.`), r("ws", `b`)}
-	s1Menu := []m.Rule{r("B", `b`), push("Open", `\(`, "S1"), push("Open2", `<`, "S2"), pop("Close", `\)`), ret(), r("A", `a`), pop("cl", `>`)}
+	rootMenu := []m.Rule{r("A", `a`), push("Open", `\(`, "S1"), pop("Close", `\)`), ret(), r("Any", `.`), r("ws", `b`), push("OpenQ", `\(?`, "S1")}
+	s1Menu := []m.Rule{r("B", `b`), push("Open", `\(`, "S1"), push("Open2", `<`, "S2"), pop("Close", `\)`), ret(), r("A", `a`), pop("cl", `>`), pop("CloseQ", `\)?`), pop("bq", `b*`)}
 	s2s := [][]m.Rule{{r("B", `b`), pop("Close2", `>`)}, {ret()}, {pop("Close2", `>`), ret()}, {r("Inner", `a`), ret()}}
 	n := lenFor(quick, 2, 3)
 	var defs []m.Def
